@@ -14,6 +14,7 @@ observe:    the property itself on the implementation, independent of the model:
 from __future__ import annotations
 
 import json
+import os
 import pickle
 import random
 from typing import Any
@@ -464,6 +465,50 @@ def search(chk: core.Check) -> None:
     explore(chk, ["journal-symlink", "journal-redis"], 120, 80, property_only=True)
 
 
+def replay_time_probe(chk: core.Check) -> None:
+    """Replay must be a function of the log alone.  Storage-level `create_new_trial` accepts templates that Study.add_trial
+    never builds: a finished template WITHOUT datetime_complete (and a WAITING one without datetime_start).  Whatever a
+    replica does with the missing time, every replica must do the same: the issuer, a second worker that replays later,
+    a fresh replay and snapshot + tail are compared on the exact timestamps of every trial (a handler that fills in
+    `datetime.now()` at replay time gives each replica its own)."""
+    import datetime as dt
+    import pickle
+    import time as _time
+
+    from optuna.storages import JournalStorage
+    from optuna.storages.journal import JournalFileBackend
+    from optuna.study import StudyDirection
+    from optuna.trial import FrozenTrial, TrialState
+
+    path = os.path.join(chk.tmp, "replay_time_%d.log" % os.getpid())
+    a = JournalStorage(JournalFileBackend(path))
+    sid = a.create_new_study([StudyDirection.MINIMIZE], "s")
+    templates = []
+    for st, val in ((TrialState.COMPLETE, 1.0), (TrialState.PRUNED, None), (TrialState.FAIL, None), (TrialState.WAITING, None), (TrialState.RUNNING, None)):
+        templates.append(FrozenTrial(number=-1, trial_id=-1, state=st, value=val, values=None, datetime_start=None if st == TrialState.WAITING else dt.datetime(2024, 1, 2, 3, 4, 5),
+                                     datetime_complete=None, params={}, distributions={}, user_attrs={}, system_attrs={}, intermediate_values={}))
+    snap = None
+    for i, t in enumerate(templates):
+        a.create_new_trial(sid, template_trial=t)
+        if i == 1:
+            snap = pickle.dumps(a._replay_result)
+    _time.sleep(0.02)
+    b = JournalStorage(JournalFileBackend(path))
+    _time.sleep(0.02)
+    c = JournalStorage(JournalFileBackend(path))
+    if snap is not None and hasattr(c, "restore_replay_result"):
+        c.restore_replay_result(snap)
+    views = {}
+    for name, stg in (("issuer", a), ("second worker", b), ("snapshot + tail", c), ("fresh replay", JournalStorage(JournalFileBackend(path)))):
+        views[name] = _exact_times(stg.get_all_trials(sid, deepcopy=False))
+    chk.case({"part": "replay-time"}, nontrivial=True)
+    chk.count("replay-time")
+    if len({json.dumps(v) for v in views.values()}) != 1:
+        chk.violation({"kind": "replay-time", "backend": "journal-file"}, {"part": "replay-time", "views": views},
+                      "journal: the replicas of one log disagree on the timestamps of trials created from templates without datetime_complete / "
+                      "datetime_start (replay is not a function of the log): %s" % json.dumps(views)[:500])
+
+
 def main(chk: core.Check) -> int:
     chk.rule = RULE
     c06_gen.regenerate(chk)  # T-journal: Generated/JournalHandlers.lean from journal/_storage.py
@@ -483,6 +528,7 @@ def main(chk: core.Check) -> int:
     except core.DriverBroken as e:
         chk.broke("correspondence", {"driver": str(e)[:800]})
     threaded_snapshot(chk, 4 if chk.tier == "quick" else 40)
+    replay_time_probe(chk)
     c06_redis.correspond(chk, chk.tier)  # the Redis backend command by command against Model/JournalRedis.lean
     chk.assumptions += ["pickle round trip of JournalStorageReplayResult is faithful (exercised, not proved)",
                         "fakeredis stands for Redis", "the model consumes the records as re-encoded by rec_to_driver (floats -> exact rationals)"]
